@@ -13,12 +13,13 @@ VARIABLE l
 
 ClsOK(ln) ==
   /\ \A i \in 1..Len(ln.rep) : ClassOf(ln.rep[i]) = ln.classes[i] /\ ClassOf(ln.rep2[i]) = ln.classes[i]
-  /\ ln.count = Reported(ln.rep) /\ ln.count_b = ln.count /\ ln.count_l = ln.count /\ ln.count_r = ln.count
+  /\ ln.count = Reported(ln.rep) /\ ln.count_b = ln.count /\ ln.count_l = ln.count /\ ln.count_r = ln.count /\ ln.count_c = ln.count
   /\ Reported(ln.rep2) = Reported(ln.rep)
   /\ ln.uniform /\ ln.preserved /\ ln.loaded
 TxtOK(ln) ==
   /\ ln.cp_set = Reported(ln.b) /\ ln.cp_build = ln.cp_set /\ ln.cp_load = ln.cp_set
   /\ ln.cp_reattach = ln.cp_set                      \* attaching to an item that held another text before
+  /\ ln.cp_chunk = ln.cp_set                         \* as a chunk of an indefinite text string through cbor_load
   /\ ln.loaded /\ ln.same
 LineOK(ln) == CASE ln.e = "classes" -> ln.lo = ClassLo /\ ln.hi = ClassHi
                 [] ln.e = "cls" -> ClsOK(ln)
